@@ -298,4 +298,49 @@ theorem admm_fixed (f : Option (X → ℝ)) (alpha : ℝ) (solveX : List Z → L
   · exact List.map_fst_zip (le_of_eq hlen)
   · exact List.map_snd_zip (le_of_eq hlen.symm)
 
+/-! ### a KKT point minimises the documented objective -/
+
+/-- `−Cᵀy ∈ ∂f(x*)`, `y ∈ ∂g(Cx*)` ⇒ `x*` minimises `f(x) + g(Cx)` (C additive with adjoint `Cadj`) -/
+theorem kkt_isMin (F : Fn X) (G : Fn Z) (C : X → Z) (Cadj : Z → X)
+    (hC : ∀ x y, C (x - y) = C x - C y) (hadj : ∀ w x, inner ℝ (Cadj w) x = inner ℝ w (C x))
+    (xs : X) (y : Z) (h1 : F.Subgrad xs (-(Cadj y))) (h2 : G.Subgrad (C xs) y) :
+    ∀ x ∈ F.dom, C x ∈ G.dom → F.val xs + G.val (C xs) ≤ F.val x + G.val (C x) := by
+  intro x hx hcx
+  have a := h1.2 x hx
+  have b := h2.2 (C x) hcx
+  rw [inner_neg_left, hadj, hC] at a
+  linarith
+
+/-! ### concrete proximal maps satisfying the contract (used for non-vacuity) -/
+
+theorem isProx_zero : IsProx (Fn.ofReal (fun _ : X => (0 : ℝ))) (fun _ v => v) := by
+  intro lam _ v
+  refine ⟨trivial, fun y _ => ?_⟩
+  simp [Fn.ofReal]
+
+/-- `f = ½‖· − y0‖²` with `prox_{λf}(v) = (v + λ y0)/(1 + λ)` -/
+theorem isProx_halfsq (y0 : X) :
+    IsProx (Fn.ofReal (fun x : X => 1 / 2 * ‖x - y0‖ ^ 2)) (fun lam v => (1 / (1 + lam)) • (v + lam • y0)) := by
+  intro lam hlam v
+  refine ⟨trivial, fun y _ => ?_⟩
+  simp only [Fn.ofReal]
+  set p := (1 / (1 + lam)) • (v + lam • y0) with hp
+  have h1 : (1 / lam) • (v - p) = p - y0 := by
+    have hl : (1 + lam) ≠ 0 := by positivity
+    have hv : v = (1 + lam) • p - lam • y0 := by
+      rw [hp, smul_smul]
+      have : (1 + lam) * (1 / (1 + lam)) = 1 := by field_simp
+      rw [this, one_smul]; abel
+    conv_lhs => rw [hv]
+    rw [add_smul, one_smul]
+    have : p + lam • p - lam • y0 - p = lam • (p - y0) := by rw [smul_sub]; abel
+    rw [this, smul_smul]
+    have : 1 / lam * lam = 1 := by field_simp
+    rw [this, one_smul]
+  rw [h1]
+  have e : y - y0 = (p - y0) + (y - p) := by abel
+  rw [e, norm_add_sq_real]
+  have : 0 ≤ ‖y - p‖ ^ 2 := by positivity
+  linarith
+
 end Scico.Steps
